@@ -163,7 +163,10 @@ def rnd_options(rng, heavy=False):
     if rng.random() < 0.25:
         kw['encoding'] = rng.choice(['utf-8', 'iso-8859-1', 'latin1', 'shift_jis', 'UTF-8', 'iso-8859-15',
                                      'cp1252', 'utf-16-be', 'ascii', 'cp437', 'gbk', 'euc_kr', 'big5', 'utf-16', 'utf-8-sig', 'utf-32',
-                                     'iso2022_jp', 'hz', None])
+                                     'iso2022_jp', 'hz', None,
+                                     # aliases the codec registry resolves (the ECI number follows the codec, not the spelling)
+                                     'latin-1', 'ISO8859_1', 'L1', 'sjis', 'Shift_JIS', 'UTF8', 'u8', 'cp932', 'ms932',
+                                     'iso-8859-2', 'ISO_8859-7', 'windows-1251', 'us-ascii', '646', 'UTF_16_BE', 'euckr', 'gb2312'])
     if rng.random() < 0.25:
         kw['eci'] = rng.choice([True, False])
     if rng.random() < 0.3:
